@@ -202,6 +202,9 @@ theorem encF64_eq_key (b : Nat) (hb : b < two64) : encF64 b = encKey .F (f64Key 
   congr 1
   omega
 
+theorem encKey_length (l : Lane) (k : Int) : (encKey l k).length = 8 := by
+  cases l <;> simp [encKey, encI64, encU64, be_length]
+
 /-- Bit patterns inside a value are 64-bit. -/
 def SV.wf : SV → Prop
   | .int64 x => x < two64
